@@ -27,10 +27,20 @@ def _levels(vals, width):
     return struct.pack("<I", len(body)) + body
 
 
-def _v2_page(pt, d, r, wd, nv, vi, maxd):
-    """DATA_PAGE_V2 with RLE_DICTIONARY values (indices vi..vi+nv-1 into a dictionary page), levels without the
-    4-byte length prefix, not compressed"""
+def _v2_page(pt, d, r, wd, nv, vi, maxd, plain=False):
+    """DATA_PAGE_V2 with RLE_DICTIONARY values (indices vi..vi+nv-1 into a dictionary page) - or PLAIN values -,
+    levels without the 4-byte length prefix, not compressed"""
     rl, dl = _levels(r, 1)[4:], _levels(d, wd)[4:]
+    if plain:
+        vals = b"".join(struct.pack("<q", 100 + vi + j) for j in range(nv))
+        body = rl + dl + vals
+        nn = sum(1 for x in d if x != maxd)
+        ph = pt.PageHeader(type=3, uncompressed_page_size=len(body), compressed_page_size=len(body),
+                           data_page_header_v2=pt.DataPageHeaderV2(
+                               num_values=len(d), num_nulls=nn, num_rows=sum(1 for x in r if x == 0), encoding=0,
+                               definition_levels_byte_length=len(dl), repetition_levels_byte_length=len(rl),
+                               is_compressed=False, i32=1), i32=1)
+        return bytes(ph.to_bytes()) + body
     idx = list(range(vi, vi + nv))
     w = 4
     vals = bytes([w])
@@ -75,7 +85,7 @@ def build(path, defi, rep, splits, opt_list, opt_elem, maxd, version=1, encs=Non
         d, r = defi[a:b], rep[a:b]
         nv = sum(1 for x in d if x == maxd and x >= thr)
         if version == 2:
-            data += _v2_page(pt, d, r, wd, nv, vi, maxd)
+            data += _v2_page(pt, d, r, wd, nv, vi, maxd, plain=bool(encs) and encs[0] == "P")
             vi += nv
             continue
         if encs and encs[len([x for x in bounds[1:] if x <= a and x > 0])] == "d":
